@@ -7,7 +7,7 @@ CHECK = {
     "reset_ops": ["ss.new"],
     "rule": "seeded scripts of 10..60 operations (open/write/deliver-one-record/accept/read/closeStream/close/fault/propagate/tick) on a pair of real "
             "sessions over a harness-controlled in-memory network inside testing/synctest, 4 methods, 1..4 connections, singleplex; a fault at every "
-            "frame boundary of 1..4 in-flight frames; the OpenStream-vs-Close schedule via VerifPoint. distinct = distinct op-kind sequences; all non-trivial",
+            "frame boundary of 1..4 in-flight frames; the OpenStream-vs-Close schedule via VerifPoint; accept-backlog overflow (1024+8 streams: refusals told, nothing drifts); a connection handed over after the teardown, while the first one is parked inside addConn, and while AddConnection is inside the connection's own LocalAddr/RemoteAddr; the closer of the last stream parked right before arming the inactivity check while another stream is opened; 2-3 Reads on one stream and 2 Accepts parked at teardown (four kinds of teardown, both pipes); the inactivity check parked between its test and its Close. The state compared after every operation includes the stream-closing frames / session notices each side has put on the wire. distinct = distinct op-kind sequences; all non-trivial",
     "assumptions": ["sync.Cond/channel wake-ups and timers are runtime behaviour: covered by the harness monitors under testing/synctest, not by the theorems",
                     "a connection fault is seen by both ends (property text)",
                     "lock order: a loop body is counted once; sync.Cond.Wait and the one channel send under streamsM (acceptCh, capacity 1024) return; RWMutex treated like Mutex"],
